@@ -492,4 +492,6 @@ def run(ck, tier):
     ck.assume('datastore contract: getValues(fc, address, n) returns n values')
     ck.assume('binary framing: the overhead is exact only when the payload contains no delimiter bytes (escaping adds bytes)')
     ck.assume('what the transport really returns is not decided')
+    from .. import ownership as _own
+    ck.guard(_own.rule_instance_owned, ck, cx, 'R4', _own.MANAGERS[:1], 'a unit that timed out on one client is treated as silent by every other client, which then sizes exception replies as full-length replies', 1)
     return cx.idx
